@@ -1191,6 +1191,16 @@ fn replay(cfg: &Cfg, p: &std::path::Path) -> Stats {
         }
     };
     let s = parallel(&Cfg { threads: 1, ..cfg.clone() }, 9, |t| {
+        if m.get("kind").map(|s| s.as_str()) == Some("acc-long-lived") {
+            let k: usize = m.get("overflows").and_then(|s| s.parse().ok()).unwrap_or(70_000);
+            match m.get("capacity").and_then(|s| s.parse::<usize>().ok()).unwrap_or(8) {
+                2 => long_lived_instance::<2>(t, k),
+                3 => long_lived_instance::<3>(t, k),
+                64 => long_lived_instance::<64>(t, k),
+                _ => long_lived_instance::<8>(t, k),
+            }
+            return;
+        }
         if m.get("kind").map(|s| s.as_str()) != Some("acc") {
             t.st.inconclusive("replay of borrowed-target streams is by re-running the check".into());
             return;
